@@ -152,6 +152,10 @@ def schemas():
         'poss-body-here': ([M(a), a, L(b)], b),
         'poss-body-here2': ([M(Neg(a)), Neg(a), L(O('MaterialConditional', a, b))], O('Disjunction', a, b)),
         'poss-body-here3': ([a, L(O('MaterialConditional', a, b)), M(a)], b),
+        # a witness is needed at a world where some constant of the branch does not occur
+        'wit-other-world': ([Fa, M(Q('Existential', x, Gx))], Gb),
+        'wit-other-world2': ([Fa, Gb, M(Q('Existential', x, P(H2, x, ca)))], L(Fb)),
+        'wit-other-world3': ([L(Fa), M(Neg(Q('Universal', x, Gx)))], M(Ga)),
         # the tableau forks BEFORE the world / constant generating nodes are worked on: each fork keeps its own books
         'fork-then-limit': ([O('Disjunction', L(O('Conjunction', M(a), M(Neg(a)))), L(O('Conjunction', M(b), M(Neg(b)))))], A(4)),
         'fork-then-limit2': ([O('Disjunction', L(O('Conjunction', M(a), M(Neg(a)))), L(O('Conjunction', M(b), M(Neg(b))))), c], A(4)),
@@ -247,4 +251,16 @@ def systematic(prop_only=False):
             add(f'{tag}:nest', [O('Possibility', b), S], O('Possibility', O('Conjunction', a, b)))
             add(f'{tag}:nest2', [O('Necessity', O('MaterialConditional', a, b)), S], O(m, b))
             add(f'{tag}:glut', [S, O('Necessity', O('Conjunction', a, Neg(a)))], c)
+    # a quantifier under a modal operator and the other way round: the quantified sentence is evaluated / instantiated
+    # at ANOTHER world than the one the argument starts in
+    for m in MOD:
+        for q in ('Existential', 'Universal'):
+            QF = Q(q, x, Fx)
+            S = O(m, QF)
+            add(f'{m}{q}:out', [S], QF)
+            add(f'{m}{q}:in', [QF], S)
+            add(f'{m}{q}:inst', [S], O(m, Fa))
+            add(f'{m}{q}:gen', [O(m, Fa)], S)
+            add(f'{q}{m}:swap', [Q(q, x, O(m, Fx))], S)
+            add(f'{q}{m}:swap2', [S], Q(q, x, O(m, Fx)))
     return out
